@@ -122,6 +122,25 @@ add('C10-xar-duplicate-name', 'C10',
     ['open f=xar', ent_line(good(0, 'xar')), ent_line(good(0, 'xar')), 'close', 'rd 0', 'rd 1', 'rd 2', 'done'],
     r'^C10 f=xar( filter=\w+)? .*\(pathname written twice\)$')
 
+add('C10-link-before-target', 'C10',
+    'xar and iso9660 writers: a hard-link entry whose target has not been written before it (or never is) is stored as an empty regular file '
+    'without the link, nlink 1, status ARCHIVE_OK',
+    ['open f=xar', ent_line(dict(good(1, 'xar'), hard=hx('d0/f0'), size='0', body=None, nlink='2')), ent_line(dict(good(0, 'xar'), nlink='2')),
+     'close', 'rd 0', 'rd 1', 'rd 2', 'done'],
+    r'^C10 f=(xar|iso9660)( filter=\\w+)? status=ok field=hard link entry written before')
+add('C10-link-dropped', 'C10',
+    'zip, 7zip, mtree, ar and warc writers accept an entry that is a hard link (archive_entry_hardlink set) with ARCHIVE_OK and store an empty regular file: '
+    'the link target is lost without a report',
+    ['open f=zip', ent_line(good(0, 'zip')), ent_line(dict(good(1, 'zip'), hard=hx('d0/f0'), size='0', body=None, nlink='2')),
+     'close', 'rd 0', 'rd 1', 'rd 2', 'done'],
+    r'^C10 f=(zip|7zip|mtree|arbsd|arsvr4|warc)( filter=\\w+)? status=ok field=hard link target not stored')
+add('C10-mtree-foreign-flags', 'C10',
+    'mtree writer with use-set compares file flags by the bit values of this platform: a flags text the platform does not know (uappnd on Linux) '
+    'counts as "no flags", so after "/set flags=uappnd" unflagged entries are written without flags=none and read back with the flag',
+    ['open f=mtree opt=use-set', ent_line(dict(good(0, 'mtree'), fflags='uappnd')), ent_line(good(1, 'mtree')), ent_line(good(2, 'mtree')),
+     'close', 'rd 0', 'rd 1', 'rd 2', 'rd 3', 'done'],
+    r'^C10 f=mtree status=ok field=fflags wrote= read=(uappnd|uchg)')
+
 def case2(opts, ents, n=None):
     n = len(ents) if n is None else n
     return ['open ' + opts] + [ent_line(e) for e in ents] + ['close'] + [f'rd {i}' for i in range(n + 1)] + ['done']
@@ -184,6 +203,8 @@ FIXED = [
  'fixed: property=C02 d1db1c2 pax writer wrote atime/ctime only when non-zero: a time stamp of exactly 0 read back as unset',
  'fixed: property=C02 13c8d4f xar reader: archive_read_data_block returned ARCHIVE_OK with an empty block forever when an entry\'s compressed stream ends before the length the TOC declares (as in the archive the xar writer produces for two entries of the same name)',
  'fixed: property=C10 5bfa422 zip writer: write_path()/copy_path() looked at path[strlen(path) - 1] for an empty pathname (one byte before the buffer: ASan heap-buffer-overflow, ARCHIVE_FATAL in a plain build) and dereferenced a missing pathname; both are now refused with ARCHIVE_FAILED',
+ 'fixed: property=C02 4b5a1e9 mtree writer with use-set: write_global() re-asserted in its state a keyword that an earlier /unset had removed whenever the keyword was not re-evaluated for a directory (no children, fewer than two entries sharing a value): entries with the formerly set flags were then written without them and read back unflagged',
+ 'fixed: property=C02 a48e314 xar writer make_fflags_entry(): fe->name[cp - p] read beyond the end of a flag-table name shorter than the flag word of the entry (noatime vs sappnd): global-buffer-overflow under ASan, found by the file-flags dimension',
  'fixed: property=C10 1911fd7 gnutar writer: same orphaned long-name header when a numeric field (rdev, uid, size) of the entry itself did not fit',
 ]
 K['fixed'] = [x for x in K.get('fixed', []) if not any(x.split()[2] == y.split()[2] for y in FIXED)] + FIXED
